@@ -8,9 +8,11 @@ for d in seeded/${pre}*; do
   [ -f "$d/patch.diff" ] || continue
   id=$(basename "$d"); prop=${id%%-*}
   if grep -q '"obsolete"' "$d/meta.json" 2>/dev/null; then echo "OBSOLETE $id (no longer breaks the property on the repaired tree, see meta.json)"; continue; fi
+  with=$(python3 -c "import json,sys; print(json.load(open(sys.argv[1])).get('regress_with',''))" "$d/meta.json" 2>/dev/null)
+  [ -n "$with" ] && prop=$with  # reported only by the check of the property that owns the behaviour (see meta.json)
   out=$(tools/try_mutant.sh "$d/patch.diff" "$tier" "$prop" 2>&1)
   n=$((n+1))
-  if echo "$out" | grep -q "^VIOLATION"; then echo "CAUGHT $id"; 
+  if echo "$out" | grep -q "^VIOLATION"; then echo "CAUGHT $id${with:+ (by $with)}"; 
   elif echo "$out" | grep -q "PATCH DOES NOT APPLY"; then echo "STALE  $id (patch no longer applies to the repaired tree)";
   else echo "MISSED $id $(echo "$out" | grep -E 'rc=|HARNESS' | head -2 | tr '\n' ' ')"; miss=$((miss+1)); fi
 done
